@@ -1582,7 +1582,7 @@ fn main() {
             let nums = v::table_numbers(&o);
             let newest = *nums.last().expect("a table");
             let db = raindb::DB::open(o.clone()).expect("reopen");
-            fs.fail_open(&format!("{}.rdb", newest));
+            if a.len() > 1 && a[1] == "notfound" { fs.fail_open_not_found(&format!("{}.rdb", newest)); } else { fs.fail_open(&format!("{}.rdb", newest)); }
             let show = |r: Result<Vec<u8>, raindb::errors::RainDBError>| match r {
                 Ok(v) => format!("Ok({})", String::from_utf8_lossy(&v)),
                 Err(raindb::errors::RainDBError::KeyNotFound) => "Err(KeyNotFound)".to_string(),
